@@ -167,14 +167,19 @@ func Gen(r *core.Rand, o Opts) *History {
 	var plans []*tripPlan
 	usedKey := map[string]bool{}
 	suffixes := []string{"_A..N", "_A..S01R", "_6..N", "_GS.S"}
-	dates := []string{"20231114", "20231115"}
+	// two ordinary consecutive service days, plus the days on which America/New_York has 25 and 23 hours
+	dates := []string{"20231114", "20231115", "20231114", "20231115", "20231105", "20240310"}
 	for len(plans) < nT {
 		origin := r.Intn(144000)
+		if r.Chance(1, 6) {
+			// an origin time past 24:00:00 (a trip of the previous service day that starts after midnight)
+			origin = 144000 + r.Intn(36000)
+		}
 		if len(plans) > 0 && r.Chance(1, 3) {
 			// same start instant as an earlier trip, different suffix — or same suffix, different origin
 			fmt.Sscanf(plans[0].id[:6], "%d", &origin)
 			if r.Bool() {
-				origin = (origin + 100*(1+r.Intn(50))) % 144000
+				origin = (origin + 100*(1+r.Intn(50))) % 180000
 			}
 		}
 		suf := core.Pick(r, suffixes)
